@@ -14,7 +14,7 @@ WORKERS = 4
 EXHAUSTIVE = {'quick': True, 'thorough': True}
 RULE = ('complete enumeration: every subset of {plain, @bash, @fish, @zsh, @pwsh} command definitions (32) x name in '
         '{X, PATH, DIRECTORY} x reference position {top level, tail of a word, through another definition, through two '
-        'definitions under four different pairs of names, under ||, ... and a within-word ||, and behind one definition below [], ..., || and inside a word} and inside a word that follows another external command (15) x 4 target shells = 5760 grammars, each definition with its own marker command `echo M_<name>_<flavour>`; plus plain '
+        'definitions under four different pairs of names, under ||, ... and a within-word ||, and behind one definition below [], ..., || and inside a word} inside a word that follows another external command, and behind three definitions (16) x 4 target shells = 6144 grammars, each definition with its own marker command `echo M_<name>_<flavour>`; plus plain '
         'non-command definitions of PATH / DIRECTORY. The rule of the statement (X@S, else plain, else built-in for '
         'PATH/DIRECTORY, else any word) is observed (1) on the command symbols of the automaton compiled by the real '
         'pipeline, (2) on the _<cmd>_cmd_N bodies of the script the real binary emits for the target (chosen marker '
@@ -23,7 +23,7 @@ RULE = ('complete enumeration: every subset of {plain, @bash, @fish, @zsh, @pwsh
         'and the next word is reached). non-trivial = every case; distinct by (grammar, target)')
 ASSUMPTIONS = ['for fish / zsh / pwsh the built-in case is judged as "one command body that is none of the grammar\'s markers"',
                'zsh: definitions for zsh and built-ins are compadd-style commands, plain {{{ }}} definitions are stdout commands']
-MIN_EVALS = {'quick': 5400, 'thorough': 5400}
+MIN_EVALS = {'quick': 5800, 'thorough': 5800}
 FLAVOURS = ('plain', 'bash', 'fish', 'zsh', 'pwsh')
 NAMES = ('X', 'PATH', 'DIRECTORY')
 POSITIONS = ('top', 'word', 'via')
@@ -32,6 +32,8 @@ VIA2 = {'via2-SUB-OPT': ('SUB', 'OPT'), 'via2-A-B': ('A', 'B'), 'via2-FIRST-SECO
         'via2-OUTER-INNER': ('OUTER', 'INNER')}
 
 
+# behind three definitions (a chain long enough for the order in which definitions are expanded to matter)
+VIA3 = {'via3-A-B-C': ('A', 'B', 'C')}
 VIA_UNDER = {
     'via-under-optional': lambda x: seq(lit('--opt'), gast.opt(x)),
     'via-under-repeat': lambda x: seq(lit('go'), gast.many(x)),
@@ -66,6 +68,12 @@ def build(name, subset, pos):
         # behind one definition, and there below an operator: the dependency between definitions must be seen there
         stmts.append(call('cmd', seq(nt('W'), lit('after'))))
         stmts.append(defn('W', None, VIA_UNDER[pos](nt(name))))
+    elif pos in VIA3:
+        n1, n2, n3 = VIA3[pos]
+        stmts.append(call('cmd', seq(nt(n1), lit('after'))))
+        stmts.append(defn(n1, None, seq(lit('a'), nt(n2))))
+        stmts.append(defn(n2, None, seq(lit('b'), nt(n3))))
+        stmts.append(defn(n3, None, seq(lit('c'), nt(name))))
     elif pos in VIA2:
         n1, n2 = VIA2[pos]
         stmts.append(call('cmd', seq(nt(n1), lit('after'))))
@@ -94,7 +102,7 @@ def all_cases():
         for k in range(len(FLAVOURS) + 1):
             for subset in itertools.combinations(FLAVOURS, k):
                 for pos in POSITIONS + tuple(VIA2) + ('under-fallback', 'under-repeat', 'under-fallback-in-word') + \
-                        tuple(VIA_UNDER) + ('word-after-command',):
+                        tuple(VIA_UNDER) + ('word-after-command',) + tuple(VIA3):
                     for target in common.SHELLS:
                         yield (name, subset, pos, target)
 
